@@ -10,7 +10,8 @@ package thrift
 // obligation fails, and (b) checks the composition zigzag o varint through the public
 // WriteI16/I32/I64 - ReadI16/I32/I64 on boundary values (every power of two +-1 and its
 // negation) and 20000 pseudo-random values (seed VERIF_SEED), and WriteString/ReadString on
-// every length 0..300, the varint boundaries and the models' lengths.  Prints DRIVER-FAIL lines.
+// every length 0..300, the varint boundaries and the models' lengths, and (c) every byte, both
+// booleans and the set / map / field / list headers of both protocols on boundary sizes, ids and all element types.  Prints DRIVER-FAIL lines.
 
 import (
 	"fmt"
@@ -181,6 +182,83 @@ func TestVerifDriverC16(t *testing.T) {
 			rty, rsize, err := p.ReadListBegin()
 			if err != nil || rty != ty || rsize != size || buf.Len() != 0 {
 				fail("list header (type %d, size %d): read (type %d, size %d) err %v, %d bytes left", ty, size, rty, rsize, err, buf.Len())
+			}
+		}
+	}
+	// single bytes, stand-alone booleans, set and map headers of the compact protocol;
+	// bytes, booleans and headers of the binary protocol (model values are sizes, ids,
+	// types and bytes here)
+	sizes := []int{0, 1, 2, 13, 14, 15, 16, 17, 127, 128, 16383, 16384, 1 << 20, math.MaxInt32}
+	for _, v := range vals[:nModel] {
+		if v >= 0 && v <= math.MaxInt32 {
+			sizes = append(sizes, int(v))
+		}
+	}
+	for b := -128; b <= 127; b++ {
+		buf.Reset()
+		p.WriteByte(int8(b))
+		if r, err := p.ReadByte(); err != nil || r != int8(b) || buf.Len() != 0 {
+			fail("byte round trip of %d: read %d err %v, %d left unread", b, r, err, buf.Len())
+		}
+		bbuf.Reset()
+		bp.WriteByte(int8(b))
+		if r, err := bp.ReadByte(); err != nil || r != int8(b) || bbuf.Len() != 0 {
+			fail("binary byte round trip of %d: read %d err %v, %d left unread", b, r, err, bbuf.Len())
+		}
+	}
+	for _, v := range []bool{false, true} {
+		buf.Reset()
+		p.booleanFieldPending, p.boolValueIsNotNull = false, false
+		p.WriteBool(v)
+		if r, err := p.ReadBool(); err != nil || r != v || buf.Len() != 0 {
+			fail("stand-alone bool round trip of %v: read %v err %v, %d left unread", v, r, err, buf.Len())
+		}
+		bbuf.Reset()
+		bp.WriteBool(v)
+		if r, err := bp.ReadBool(); err != nil || r != v || bbuf.Len() != 0 {
+			fail("binary bool round trip of %v: read %v err %v, %d left unread", v, r, err, bbuf.Len())
+		}
+	}
+	all := append([]TType{BOOL}, types...)
+	for _, size := range sizes {
+		for _, ty := range all {
+			buf.Reset()
+			p.WriteSetBegin(ty, size)
+			if rty, rsize, err := p.ReadSetBegin(); err != nil || rty != ty || rsize != size || buf.Len() != 0 {
+				fail("set header (type %d, size %d): read (type %d, size %d) err %v, %d bytes left", ty, size, rty, rsize, err, buf.Len())
+			}
+			bbuf.Reset()
+			bp.WriteListBegin(ty, size)
+			if rty, rsize, err := bp.ReadListBegin(); err != nil || rty != ty || rsize != size || bbuf.Len() != 0 {
+				fail("binary list header (type %d, size %d): read (type %d, size %d) err %v, %d bytes left", ty, size, rty, rsize, err, bbuf.Len())
+			}
+			bbuf.Reset()
+			bp.WriteSetBegin(ty, size)
+			if rty, rsize, err := bp.ReadSetBegin(); err != nil || rty != ty || rsize != size || bbuf.Len() != 0 {
+				fail("binary set header (type %d, size %d): read (type %d, size %d) err %v, %d bytes left", ty, size, rty, rsize, err, bbuf.Len())
+			}
+			for _, vt := range all {
+				if size >= 1 { // the types of an empty map are not on the wire (compact)
+					buf.Reset()
+					p.WriteMapBegin(ty, vt, size)
+					if rk, rv, rsize, err := p.ReadMapBegin(); err != nil || rk != ty || rv != vt || rsize != size || buf.Len() != 0 {
+						fail("map header (types %d %d, size %d): read (types %d %d, size %d) err %v, %d bytes left", ty, vt, size, rk, rv, rsize, err, buf.Len())
+					}
+				}
+				bbuf.Reset()
+				bp.WriteMapBegin(ty, vt, size)
+				if rk, rv, rsize, err := bp.ReadMapBegin(); err != nil || rk != ty || rv != vt || rsize != size || bbuf.Len() != 0 {
+					fail("binary map header (types %d %d, size %d): read (types %d %d, size %d) err %v, %d bytes left", ty, vt, size, rk, rv, rsize, err, bbuf.Len())
+				}
+			}
+		}
+	}
+	for _, id := range ids {
+		for _, ty := range all {
+			bbuf.Reset()
+			bp.WriteFieldBegin("f", ty, id)
+			if _, rty, rid, err := bp.ReadFieldBegin(); err != nil || rty != ty || rid != id || bbuf.Len() != 0 {
+				fail("binary field header (type %d, id %d): read (type %d, id %d) err %v, %d bytes left", ty, id, rty, rid, err, bbuf.Len())
 			}
 		}
 	}
